@@ -276,6 +276,8 @@ def work_terms(item):
         names = [("no node", 2, False), ("unknown node", 3, False), ("root node", 4, True)] + [(f"node {i}", 5 + k, i in canon_ids) for k, i in enumerate(ids)] + \
                 [("no node, after position queries", 5 + n + 2, False), ("node n0, after position queries", 5 + n + 3, "n0" in canon_ids), ("root node, after position queries", 5 + n + 4, True)]
         lc = canon_run.label_class(label)
+        if lc.startswith("test:"):
+            lc = "test:" + t.tag          # the repository-test corpus: classed by the outermost element of the expression
         replay = {"kind": "term", "code": code, "style": style, "label": label, "doc": terms.doc(terms.parse_xml(d).kids[0])}
         visible = bool(vis.N(vis.vis(t), True))
         for what, i, may_highlight in names:
